@@ -365,6 +365,7 @@ func runCLI(cf *lib.CaseFile, rng *lib.Rng, f lib.Flags) {
 		}
 		if c.mustFail && !failed {
 			cf.Count("cli_swallowed")
+			cf.Violation(idx, fmt.Sprintf("the failure is certainly reached (%s) but octosql exited %d without an error message: %s (-o %s)", c.note, o.res.exit, c.query, c.format), c.class)
 		}
 		if crashed {
 			cf.Count("cli_crashed")
